@@ -17,7 +17,7 @@ CLAIMS = {
             "all operation sequences to depth 3 (thorough 5) incl. failing, aborted, slow-reply and abandoned (cancelled) variants and special session ids, one connection living through 300 (600) operations, the same with a frozen clock and in non-UTC zones, and all reply-order interleavings of two instances (same and different host) are executed on the real client; each connection's frame log is checked against the login-then-commands session model; the state graph over (object state, module-state digest) closes",
             "deterministic single-threaded asyncio; the only scheduling freedom is which pending read is answered next; state outside the fingerprint (closures, C objects) is covered only to the stateless depth", "5/C03"),
     "C04": ("model_checking", "explicit-state enumeration of the CRC-16 automaton (65,536 states x 256 inputs) replayed through the real signer, closed by induction on length",
-            "all strings of length 0..2 reach every CRC state; every transition from every state is replayed through the real signer (thorough), which covers all byte strings by induction",
+            "all strings of length 0..2 reach every CRC state; every transition from every state is replayed through the real signer, which covers all byte strings by induction; structured long strings up to 1 MiB, bit flips of real frames and systematic non-hex inputs",
             "binascii.crc_hqx is a left fold over bytes (also checked on split points); hex parsing by binascii.unhexlify", "5/C04"),
     "C05": ("exploration", "bounded exhaustive input enumeration through a running bridge on loopback UDP against a reference broadcast encoder",
             "for all 9 device types and both states every field is swept over its domain, sent as a real datagram to a running bridge, and the delivered device compared field by field with what was encoded",
@@ -35,7 +35,7 @@ CLAIMS = {
             "each fault from the alphabet is injected at each step of each operation's exchange; the caller must see a parsed response or RuntimeError (state queries), success iff non-empty (generic), and no frame after a failed login",
             "an empty reply over a stream is end-of-stream; socket resets are outside the alphabet", "5/C09"),
     "C10": ("exploration", "bounded exhaustive input enumeration of schedule replies and create->list round trips under a virtual clock and real tzset zones",
-            "record counts 0..8, all ids, all masks, all minutes, ten zones and transition dates; the record captured from create_schedule is listed back and must parse to the caller's arguments",
+            "record counts 0..8, all ids, all masks, all minutes, every combination of the flag bytes, ten zones, transition dates and dates from 2038 to 2106; the record captured from create_schedule is listed back and must parse to the caller's arguments",
             "zoneinfo is the independent oracle; glibc zone code is what the library calls", "5/C10"),
     "C11": ("exploration", "bounded exhaustive input enumeration: all 1440 minutes x zones x dates under a virtual clock",
             "every minute of the day in every listed zone on every listed date is encoded and decoded under a pinned clock and the epoch value compared with zoneinfo; every call is also run with the clock passing midnight before each of its clock reads",
@@ -60,7 +60,7 @@ CLAIMS = {
     "C18": ("model_checking", "stateless exploration of all action sequences to a depth + BFS with state hashing to a fixpoint on a controlled loop + TLC-checked TLA+ model with every edge replayed on the implementation",
             "all enabled sequences over 14 actions (connect, refused, four kinds of operation incl. one abandoned by its caller, five context bodies, refused context, device drop, disconnect) for both API classes are executed on the real client; after every action the connected flag and the device-side end-of-stream are compared with the lifecycle model; BFS to a fixpoint; a TLA+ model checked by TLC with every edge replayed on the client; twin clients; one client moved to a second event loop; a real-TCP subset",
             "socketpair stands in for TCP except in the real-TCP subset of the thorough tier", "5/C18"),
-    "C19": ("exploration", "complete enumeration of the finite table space (three construction styles, four rounds, a python -O pass)",
+    "C19": ("exploration", "complete enumeration of the finite table space (four construction styles incl. an empty subclass, four rounds, a python -O pass)",
             "all 9 types x 4 classes and every category in both port tables are enumerated", "none", "5/C19"),
 }
 
